@@ -99,7 +99,40 @@ func (r *rw) stmt(s ast.Stmt) []ast.Stmt {
 	case *ast.RangeStmt:
 		if t := r.info.TypeOf(x.X); t != nil {
 			if _, ok := t.Underlying().(*types.Chan); ok {
-				unsupported(r.fset, x.Pos(), "range over a channel")
+				// for v := range ch { body }  ==>  for { vsched.ChanRecv(ch); v, ok := <-ch; if !ok { break }; body }
+				if !sideEffectFree(x.X) {
+					unsupported(r.fset, x.Pos(), "range over a channel expression with side effects")
+				}
+				okName := r.newTmp("ok")
+				recv := &ast.UnaryExpr{Op: token.ARROW, X: x.X}
+				r.allowRecv(recv)
+				var lhs ast.Expr = ident("_")
+				tok := token.DEFINE
+				if x.Key != nil {
+					lhs = x.Key
+					if x.Tok == token.ASSIGN {
+						tok = token.ASSIGN
+					}
+				}
+				var assign ast.Stmt
+				if tok == token.ASSIGN {
+					// the loop variable exists already: declare ok, then assign both
+					assign = &ast.BlockStmt{List: []ast.Stmt{}}
+					assign = &ast.AssignStmt{Lhs: []ast.Expr{lhs, ident(okName)}, Tok: token.ASSIGN, Rhs: []ast.Expr{recv}}
+				} else {
+					assign = &ast.AssignStmt{Lhs: []ast.Expr{lhs, ident(okName)}, Tok: token.DEFINE, Rhs: []ast.Expr{recv}}
+				}
+				r.block(x.Body)
+				body := []ast.Stmt{
+					&ast.ExprStmt{X: r.call("ChanRecv", x.X)},
+				}
+				if tok == token.ASSIGN {
+					body = append(body, &ast.DeclStmt{Decl: &ast.GenDecl{Tok: token.VAR, Specs: []ast.Spec{&ast.ValueSpec{Names: []*ast.Ident{ident(okName)}, Type: ident("bool")}}}})
+				}
+				body = append(body, assign,
+					&ast.IfStmt{Cond: &ast.UnaryExpr{Op: token.NOT, X: ident(okName)}, Body: &ast.BlockStmt{List: []ast.Stmt{&ast.BranchStmt{Tok: token.BREAK}}}})
+				body = append(body, x.Body.List...)
+				return []ast.Stmt{&ast.ForStmt{Body: &ast.BlockStmt{List: body}}}
 			}
 		}
 		pre := r.accesses(x.X)
@@ -148,10 +181,28 @@ func (r *rw) stmt(s ast.Stmt) []ast.Stmt {
 		unsupported(r.fset, x.Pos(), "stray comm clause")
 	case *ast.DeferStmt:
 		pre := r.accesses(x.Call)
+		if id, ok := x.Call.Fun.(*ast.Ident); ok && id.Name == "close" && len(x.Call.Args) == 1 && sideEffectFree(x.Call.Args[0]) {
+			if _, isBuiltin := r.info.Uses[id].(*types.Builtin); isBuiltin {
+				// defer close(ch)  ==>  defer func() { vsched.ChanClose(ch); close(ch) }()
+				x.Call = &ast.CallExpr{Fun: &ast.FuncLit{Type: &ast.FuncType{Params: &ast.FieldList{}}, Body: &ast.BlockStmt{List: []ast.Stmt{
+					&ast.ExprStmt{X: r.call("ChanClose", x.Call.Args[0])},
+					&ast.ExprStmt{X: &ast.CallExpr{Fun: ident("close"), Args: x.Call.Args}},
+				}}}}
+			}
+		}
 		return one(pre, x)
 	default:
 		pre := r.simplePre(s)
 		pre = append(pre, r.accesses(s)...)
+		if es, ok := s.(*ast.ExprStmt); ok {
+			if call, ok := es.X.(*ast.CallExpr); ok {
+				if id, ok := call.Fun.(*ast.Ident); ok && id.Name == "close" && len(call.Args) == 1 {
+					if _, isBuiltin := r.info.Uses[id].(*types.Builtin); isBuiltin {
+						pre = append(pre, &ast.ExprStmt{X: r.call("ChanClose", call.Args[0])})
+					}
+				}
+			}
+		}
 		return one(pre, s)
 	}
 	return []ast.Stmt{s}
